@@ -6,7 +6,7 @@
 declare -A want=(
  [m-deliv]="C01" [m-fc-chunk]="C06" [m-fc-credit-at]="C06 C05" [m-fc-credit-minus1]="C05" [m-fc-first]="C06" [m-fc-measure]="C05 C06"
  [m-fc-no-signal]="C05" [m-fc-receiver]="C06" [m-fc-store]="C05" [m-fc-unbuffered]="C05" [m-fc-wake]="C05" [m-id]="C08" [m-ident]="C17"
- [m-leak]="C14" [m-neg]="C11" [m-race]="C15" [m-reg]="C12" [m-shape]="C16" [m-shutdown]="C10" [m-term]="C04"
+ [m-leak]="C14" [m-neg]="C11" [m-race]="C15" [m-reg]="C12" [m-shape]="C16" [m-shutdown]="C10" [m-term-close]="C04" [m-term-serve]="SKIP"
  [revert-fix-D1-]="C09" [revert-fix-D13]="C11" [revert-fix-D14]="C04" [revert-fix-D15]="C13" [revert-fix-D16]="C09 C14" [revert-fix-D17]="C13"
  [revert-fix-D18]="C01 C04" [revert-fix-D19]="C15" [revert-fix-D2-]="C09" [revert-fix-D21]="C04" [revert-fix-D22]="C12" [revert-fix-D23]="C01" [revert-fix-D24]="C09"
  [revert-fix-D4]="C02" [revert-fix-D5]="C02" [revert-fix-D7-and]="C01" [revert-fix-D7-fab]="SKIP" [revert-fix-D9]="C18"
@@ -19,7 +19,7 @@ for f in selftest/mutants/*.diff; do
   b=$(basename $f .diff); checks=""
   best=0
   for k in "${!want[@]}"; do case $b in $k*) if [ ${#k} -gt $best ]; then best=${#k}; checks=${want[$k]}; fi;; esac; done
-  [ "$checks" = "SKIP" ] && { echo "$b skipped (equivalent since a later fix)"; continue; }
+  [ "$checks" = "SKIP" ] && { echo "$b skipped (equivalent since a later fix: see DESIGN.md section 11)"; continue; }
   [ -z "$checks" ] && { echo "$b NO-MAPPING"; continue; }
   git -C /tmp/ma-repo apply /tmp/ma-verif/$f || { echo "$b patch-does-not-apply"; continue; }
   res=MISSED
